@@ -7,6 +7,7 @@ import Lean.Data.Json
 import IcontractModel.Chain
 import IcontractModel.Spec.Dnf
 import IcontractModel.Spec.Post
+import IcontractModel.Spec.PyBind
 open Lean Icontract
 
 deriving instance FromJson, ToJson for Exc
@@ -19,6 +20,8 @@ deriving instance FromJson, ToJson for ErrSpec
 deriving instance FromJson, ToJson for Contract
 deriving instance FromJson, ToJson for Snapshot
 deriving instance FromJson, ToJson for Level
+deriving instance FromJson, ToJson for PKind
+deriving instance FromJson, ToJson for Param
 
 /-! ## canonical output encoding (shared with harness/canon.py) -/
 
@@ -85,8 +88,7 @@ structure CheckerCase where
   async : Bool := false
   fid : Id := 1
   levels : List Level
-  paramNames : List String := []
-  kwdefaults : List (String × Id) := []
+  sig : List Param
   args : List Id := []
   kwargs : List (String × Id) := []
   inProgress : List Id := []
@@ -114,8 +116,9 @@ def CheckerCase.checker (c : CheckerCase) : Checker where
   pre := chainPre c.levels
   snaps := chainSnaps c.levels
   posts := chainPosts c.levels
-  paramNames := c.paramNames
-  kwdefaults := c.kwdefaults
+  paramNames := sigParamNames c.sig
+  kwdefaults := sigKwdefaults c.sig
+  posOnly := sigPosOnly c.sig
 
 def boolJson (b : Bool) : Json := Json.bool b
 
@@ -124,7 +127,7 @@ def runChecker (c : CheckerCase) : Json :=
   let ck := c.checker
   let call : Call := { args := c.args, kwargs := c.kwargs }
   let (r, s') := if c.async then callAsync ck o c.inProgress call else callSync ck o c.inProgress call
-  let kw := kwargsFromCall ck.paramNames ck.kwdefaults call.args call.kwargs
+  let kw := kwargsFromCall ck.paramNames ck.kwdefaults call.args call.kwargs ck.posOnly
   let allPre := ck.pre.flatMap id
   let dnf : Bool := ck.pre.isEmpty || ck.pre.any (fun g => g.all (condTruthy c.async o kw))
   let total : Bool := allPre.all (fun x => condTruthy c.async o kw x || condFalsy c.async o kw x)
@@ -164,6 +167,11 @@ def runChecker (c : CheckerCase) : Json :=
       ("postTotal", boolJson postTotal),
       ("postFirstFalsy", match postFF with | some fc => jNat fc.id | none => Json.null),
       ("expectedPostErr", expectedPostErr),
+      ("pyAccepts", boolJson (pyAccepts c.sig c.args c.kwargs)),
+      ("pyValues", jArr (c.sig.filter (fun p => !p.isVariadic) |>.map fun p =>
+          jArr [jStr p.name, match pyValue c.sig c.args c.kwargs p with | some v => jNat v | none => Json.null])),
+      ("sigWf", boolJson (Signature.wf c.sig)),
+      ("resolved", kwJson kw),
       ("oldExpected", jArr ((sortPairs (old.map fun p => (p.1, jNat p.2))).map fun p => jArr [jStr p.1, p.2]))])
   ]
 
